@@ -18,3 +18,7 @@ import FlodymProofs.Props.C12Stages
 #print axioms Flodym.C12.missing_column_refused
 #print axioms Flodym.C12.several_value_columns_refused
 #print axioms Flodym.C12.no_value_column_refused
+#print axioms Flodym.C12.source_keeps_fractional_labels
+#print axioms Flodym.C12.fractional_label_kept
+#print axioms Flodym.C12.fractional_label_unknown
+#print axioms Flodym.C12.fractional_label_refused
